@@ -43,7 +43,7 @@ struct rec_sink : ftp::output_stream
 
 struct chop_source : ftp::input_stream
 {
-    std::string data; std::size_t pos = 0; std::vector<std::size_t> chop; std::size_t call = 0; int fail_at = -1;
+    std::string data; std::size_t pos = 0; std::vector<std::size_t> chop; std::size_t call = 0; int fail_at = -1; bool poison = false, empty_seen = false, poisoned = false;
     std::size_t read(char *buf, std::size_t size) override
     {
         if (fail_at >= 0 && static_cast<int>(call) == fail_at) { call++; ilog("sr:fail"); throw ftp::ftp_exception("Cannot read stream."); }
@@ -52,6 +52,13 @@ struct chop_source : ftp::input_stream
         std::size_t got = std::min(std::min(want, size), data.size() - pos);
         std::copy(data.data() + pos, data.data() + pos + got, buf);
         pos += got;
+        // a source whose end is not sticky (a splitter feeding consecutive uploads, a pipe): what it yields after its first
+        // empty read does not belong to this upload - asking it again is already a fault of the caller
+        if (poison && got == 0 && size > 0)
+        {
+            if (!empty_seen) empty_seen = true;
+            else if (!poisoned) { poisoned = true; static const char px[] = "!NOT-PART-OF-THIS-UPLOAD!"; got = std::min<std::size_t>(size, sizeof px - 1); std::copy(px, px + got, buf); }
+        }
         ilog("sr:" + std::to_string(size) + ":" + std::to_string(got));
         return got;
     }
@@ -249,6 +256,7 @@ std::string run(const std::vector<std::string> & tok)
                 if (a.size() != 7 || !H(2, s1) || !parse_payload(a[3], src.data)) return "bad-op";
                 src.chop = dotlist(a[4]);
                 if (a[5].rfind("fail", 0) == 0) src.fail_at = std::atoi(a[5].c_str() + 4);
+                if (a[5] == "poison") src.poison = true;
                 ftp::transfer_callback *pcb = nullptr;
                 if (a[6] != "-") { cb.polls = a[6].substr(1); pcb = &cb; }
                 if (a[1] == "APPE") ret = "ret:replies:" + render_replies(sc.cl->append_file(src, s1, pcb));
@@ -288,6 +296,7 @@ std::string run(const std::vector<std::string> & tok)
         emit(std::string("st:") + (sc.cl->is_connected() ? "1" : "0") + ":" + (sc.cl->get_transfer_type() == ftp::transfer_type::ascii ? "A" : "I") + ":"
              + (sc.cl->get_transfer_mode() == ftp::transfer_mode::active ? "a" : "p") + ":" + (sc.cl->get_rfc2428_support() ? "1" : "0") + ":"
              + std::to_string(open_client_fds()) + ":" + (pend.size() <= 64 ? hex(pend) : "n" + std::to_string(pend.size())));
+        emit(std::string("cs:") + (sc.ms && sc.ms->open ? "1" : "0"));      // is the (in-memory) control socket open?
         {
             std::string cmds;
             for (const std::string & c : sc.srv.commands) { if (c == "<connect>") continue; if (!cmds.empty()) cmds += ","; cmds += hex(c); }
